@@ -31,6 +31,33 @@ def main():
             keep = [l for l in lines if l and not l.startswith("#") and len(l) < 600 and T in l and l.split(T)[0].isalnum()][:3]
             per.setdefault(prop, []).extend(keep)
     os.makedirs(os.path.join(V, "corpus"), exist_ok=True)
+    # a candidate taken from a run on a CHANGED tree may carry oracle fields (Mercator u, row tables, wgs84 answers) computed by
+    # the changed code: keep only lines that the unchanged tree passes (verdict A or B, or a tagged known finding)
+    import subprocess, tempfile
+    st = subprocess.run(["git", "-C", "/repo", "status", "--short"], stdout=subprocess.PIPE, text=True).stdout.strip()
+    if st:
+        raise SystemExit("/repo is not clean: corpus candidates cannot be validated")
+    known = ("FUNDER", "XROUND", "LATULP", "D12DISC", "LNROUND")
+    harness, driver = os.path.join(V, ".build", "harness"), os.path.join(V, "lean", ".lake", "build", "bin", "driver")
+    for prop in list(per):
+        keep = []
+        for l in per[prop]:
+            with tempfile.NamedTemporaryFile("w", suffix=".txt", delete=False) as fh:
+                fh.write(l + "\n")
+            try:
+                h = subprocess.run([harness, "-replay", fh.name], stdout=subprocess.PIPE, stderr=subprocess.DEVNULL, timeout=120)
+                d = subprocess.run([driver], input=h.stdout, stdout=subprocess.PIPE, stderr=subprocess.DEVNULL, timeout=120)
+                v = d.stdout.decode(errors="replace").strip().split("\n")
+                ok = h.returncode == 0 and len(v) == 1 and (v[0] in ("A", "B") or (v[0].startswith("P\t") and v[0][2:].startswith(known))
+                                                           or (v[0].startswith("D\t") and "D9NONDET" in h.stdout.decode(errors="replace")))
+            except Exception:
+                ok = False
+            os.unlink(fh.name)
+            if ok:
+                keep.append(l)
+            else:
+                print("dropped from", prop, ":", l[:100])
+        per[prop] = keep
     for prop, ls in sorted(per.items()):
         seen, out = set(), []
         for l in ls:
